@@ -26,6 +26,7 @@ func run(e *harness.Env) {
 		"x every context of <=2 preceding and <=1 (thorough <=2) following elements over {H1,P,LP,IA,TB} x page cut before the table x all 18 size configurations; " +
 		"(text) 20 decorations (printf verbs, backslash/quotes, markdown/HTML/template/regexp-replacement characters) appended to every word x every element kind alone and under a heading x both chunkers x plain and splitting configurations; " +
 		"(pages) every sequence over {H1,H2,P,LP} of length <=4 (thorough <=5) x every cut into 3..4 pages x gap page none/after page 1/after page 2 x both chunkers x plain and splitting configuration; " +
+		"(headid) the same heading text several times: every sequence over {H1,H2,P} of length <=4 (thorough <=5) with >=2 headings x every cut into 2..4 pages x gap page x every grouping of the headings into same-text groups x heading elements / TOC-matched paragraphs / layout view; " +
 		"(di-nest) every heading-level sequence over H1..H4 of length <=5 (quick) / <=6 (thorough), one body element per heading; " +
 		"(layout) the same kind of sequences over what model.PageLayout can hold {H1..H4, paragraphs, lists} cut into <=3 pages x ChunkerConfig variants; " +
 		"(layout-nest) every heading-level sequence of length <=4 / <=5 x every subset of headings that have a body paragraph x two page packings. " +
@@ -47,6 +48,7 @@ func run(e *harness.Env) {
 	spaceDITable(e)
 	spaceText(e)
 	spacePages(e)
+	spaceHeadID(e)
 	spaceLayout(e)
 	spaceLayoutNest(e)
 }
@@ -559,6 +561,123 @@ func spacePages(e *harness.Env) {
 	})
 }
 
+// curHGroup is the heading identity of the documents layoutCase builds (set by spaceHeadID only).
+var curHGroup []int
+
+// partitions calls f with every assignment g (g[j] <= j, g[j] = smallest member of j's group) of n items to groups,
+// except the one where all items are different.
+func partitions(n int, f func(g []int)) {
+	g := make([]int, n)
+	var rec func(j int, allDiff bool)
+	rec = func(j int, allDiff bool) {
+		if j == n {
+			if !allDiff {
+				f(g)
+			}
+			return
+		}
+		for r := 0; r <= j; r++ {
+			if r < j && g[r] != r {
+				continue // r is not the first member of its group
+			}
+			g[j] = r
+			rec(j+1, allDiff && r == j)
+		}
+	}
+	rec(0, true)
+}
+
+// heading identity: the same heading text on several pages / several times ("Summary" in every chapter), with the
+// same or different levels, for both ways a heading reaches the document chunker (model.Heading elements;
+// model.Paragraph elements recognised through Page.Layout.Headings) and for the layout-based chunker:
+// every sequence over {H1,H2,P} of length <=4 (thorough <=5) with at least two headings x every cut into 2..4 pages
+// x gap page none/after page 1 x every partition of the headings into same-text groups (all-different excluded:
+// that is every other sub-space). hrep=toc: two headings with the same text on the same page must have the same level
+// (a text-matched heading cannot say which of the two levels it has).
+func spaceHeadID(e *harness.Env) {
+	maxLen := 4
+	if e.Thorough() {
+		maxLen = 5
+	}
+	e.Note("bound_headid", fmt.Sprintf("sequences of length <=%d over {H1,H2,P}, >=2 headings, 2..4 pages, every same-text grouping of the headings", maxLen))
+	dcfg := diConfigs()[0]
+	lcfg := layConfigs()[0]
+	forSeqs([]kind{kH1, kH2, kP}, maxLen, false, func(seq []kind) {
+		nh := 0
+		for _, k := range seq {
+			if k.isHeading() {
+				nh++
+			}
+		}
+		if nh < 2 {
+			return
+		}
+		for _, pages := range cuts(seq, 4) {
+			if len(pages) < 2 {
+				continue
+			}
+			// page and level of every heading
+			var hpage, hlevel []int
+			for pi, p := range pages {
+				for _, k := range p {
+					if k.isHeading() {
+						hpage = append(hpage, pi)
+						hlevel = append(hlevel, k.level())
+					}
+				}
+			}
+			canon := canonical(pages)
+			f := docFeats(pages, 6)
+			partitions(nh, func(g []int) {
+				tocOK, sameLevel, crossPage := true, true, false
+				for j := range g {
+					if g[j] == j {
+						continue
+					}
+					if hlevel[j] != hlevel[g[j]] {
+						sameLevel = false
+						if hpage[j] == hpage[g[j]] {
+							tocOK = false
+						}
+					}
+					if hpage[j] != hpage[g[j]] {
+						crossPage = true
+					}
+				}
+				// tocOK must hold for every pair of a group, not only (j, first)
+				for a := range g {
+					for c := a + 1; c < len(g); c++ {
+						if g[a] == g[c] && hpage[a] == hpage[c] && hlevel[a] != hlevel[c] {
+							tocOK = false
+						}
+					}
+				}
+				hid := strings.Trim(strings.ReplaceAll(fmt.Sprint(g), " ", "."), "[]")
+				hg := append([]int{}, g...)
+				for _, gap := range []string{"none", "mid"} {
+					gi := map[string]int{"none": -1, "mid": 1}[gap]
+					for _, hrep := range []string{"elem", "toc"} {
+						if hrep == "toc" && !tocOK {
+							continue
+						}
+						spec := docSpec{pages: pages, empty: gi, hrep: hrep, layout: hrep == "toc", lpToks: dcfg.lpWords, majorMax: 6, hgroup: hg}
+						base := desc("space", "headid", "ck", "di", "cfg", dcfg.name, "hrep", hrep, "pnum", 1, "empty", gap,
+							"skip", yn(f.skip), "pops", yn(f.pops), "hid", hid, "samelevel", yn(sameLevel), "crosspage", yn(crossPage), "doc", spec.String())
+						if mine, only := owned(e, base); mine {
+							evalCase(e, base, only, spec, false, dcfg.chunk)
+						}
+					}
+					if canon {
+						curHGroup = hg
+						layoutCaseAt(e, "headid", pages, variant{"elem", 0, gap}, gi, lcfg, "hid", hid, "samelevel", yn(sameLevel), "crosspage", yn(crossPage))
+						curHGroup = nil
+					}
+				}
+			})
+		}
+	})
+}
+
 // textDeco is the decoration of the documents layoutCase builds (set by spaceText only).
 var textDeco string
 
@@ -746,7 +865,7 @@ func layoutCaseAt(e *harness.Env, space string, pages [][]kind, v variant, ei in
 	if !canonical(pages) {
 		order = "interleaved"
 	}
-	spec := docSpec{pages: pages, empty: ei, pnumOff: v.off, hrep: "elem", layout: true, lpToks: wordsForChars(cfg.cc.MaxChunkSize), majorMax: mm, deco: textDeco}
+	spec := docSpec{pages: pages, empty: ei, pnumOff: v.off, hrep: "elem", layout: true, lpToks: wordsForChars(cfg.cc.MaxChunkSize), majorMax: mm, deco: textDeco, hgroup: curHGroup}
 	kv := []interface{}{"space", space, "ck", "layout", "cfg", cfg.name, "pnum", v.off + 1, "empty", v.empty, "order", order,
 		"skip", yn(f.skip), "pops", yn(f.pops), "nested", yn(f.nested), "emptyleaf", yn(f.emptyleaf),
 		"minorfirst", yn(f.minorfirst), "minortail", yn(f.minortail), "introlist", yn(f.introlist), "multipage", yn(f.multipage)}
